@@ -20,6 +20,7 @@ package templater
 //@ func (t *Templater) RenderWithExtraVars
 //@   assigns t.err, executes(), lastTemplateData()
 //@ func (t *Templater) renderProbe
+//@   ensures effective-port-is-the-rendered-one: probe != nil && probe.HttpGet != nil ==> (probe.HttpGet.Port == "" ==> probe.HttpGet.NumPort == 0) && (probe.HttpGet.Port != "" ==> probe.HttpGet.NumPort == ite(1 <= atoiVal(probe.HttpGet.Port) && atoiVal(probe.HttpGet.Port) <= 65535, atoiVal(probe.HttpGet.Port), 0))
 //@   assigns t.err, executes(), lastTemplateData(), health.ExecProbe.Command[*], health.HttpProbe.Path[*], health.HttpProbe.Host[*], health.HttpProbe.Scheme[*], health.HttpProbe.Port[*], health.HttpProbe.NumPort[*],
 //@           health.Probe.InitialDelay[*], health.Probe.PeriodSeconds[*], health.Probe.TimeoutSeconds[*], health.Probe.SuccessThreshold[*], health.Probe.FailureThreshold[*]
 
